@@ -58,6 +58,14 @@ THEOREMS = [
     "PorepyVerif.C19.convex_cell_volume_pos",
     "PorepyVerif.C19.tet_cell_positive",
     "PorepyVerif.C19.para_cell_positive",
+    "PorepyVerif.C19.edgePairedB_sound",
+    "PorepyVerif.C19.planarStarB_sound",
+    "PorepyVerif.C19.nodesPlanarB_sound",
+    "PorepyVerif.C19.starAboutB_sound",
+    "PorepyVerif.C19.checked_cell_3d",
+    "PorepyVerif.C19.convex_ccw_outward_centroid",
+    "PorepyVerif.C19.line_volume_pos",
+    "PorepyVerif.C19.volumes_sum_boundary",
 ]
 LEAN_MODULES = ["PorepyVerif.C19.Props"]
 AUDIT = "PorepyVerif/C19/Audit.lean"
@@ -80,7 +88,8 @@ TRUSTED = [
     "3-D: face centre and face area use |sub_normal| = |sub_normal . N| / |N| (exact for planar faces); non-planar faces: only normals and "
     "volumes are compared; the general 3-D theorems assume 'directed edges pair up' (closed surface, EdgePaired), planar star-shaped "
     "non-degenerate faces (PlanarStar) and, for the centroid identity, nodes in the face plane (NodesPlanar); these hypotheses are proved for "
-    "tetrahedra and Cartesian hexahedra, for other polyhedra they are assumptions on the grid",
+    "tetrahedra and parallelepipeds and are otherwise DECIDABLE input conditions (cellHypB, checked_cell_3d) which the Lean driver evaluates on "
+    "every 3-D cell; the harness requires them to hold wherever planarity survives binary64 rounding of the nodes (simplices, unmapped cells)",
     "1-D: the unit tangent is carried as direction + squared length; the flip test is modelled for collinear nodes",
     "embedded 2-D grids: the model is the planar model followed by the rational rigid motion of the case (embedded_cell_identities proves the "
     "identities for every orthogonal R); that the code's plane normal is +-R e_z (its normalisation is a square root) is tied by the comparison only; "
@@ -167,7 +176,21 @@ def _build(case):
     fl = lambda xs: np.array([float(F(x)) for x in xs])
     if k == "cart":
         nx = np.array(case["nx"])
-        g = pp.CartGrid(nx if len(case["nx"]) > 1 else np.array(case["nx"]), fl(case["phys"]))
+        if case.get("scalar_nx"):
+            nx = int(case["nx"][0])  # entry point CartGrid(n, ...)
+        if case.get("origin"):
+            # entry point: physdims as a dictionary xmin/xmax/...
+            o, ph = fl(case["origin"]), fl(case["phys"])
+            phys = {}
+            for d, ax in enumerate("xyz"[:len(case["nx"])]):
+                phys[ax + "min"], phys[ax + "max"] = float(o[d]), float(o[d] + ph[d])
+            g = pp.CartGrid(nx, phys)
+        elif case.get("scalar_nx"):
+            g = pp.CartGrid(nx, float(fl(case["phys"])[0]))
+        else:
+            g = pp.CartGrid(nx, fl(case["phys"]))
+    elif k == "point":
+        g = pp.PointGrid(fl(case["p"]))
     elif k == "tensor":
         g = pp.TensorGrid(*[fl(c) for c in case["coords"]])
     elif k == "stri":
@@ -207,6 +230,12 @@ def _build(case):
         g = _from_lists(g.dim, nodes, faces, cells)
     else:
         g.nodes = nodes
+    if case.get("perm_cells"):
+        # same grid with the cells stored in another order and the faces of every cell listed in another order
+        faces, cells = _topology(g)
+        order = case["perm_cells"]
+        cells = [cells[i][r % len(cells[i]):] + cells[i][:r % len(cells[i])] for i, r in order]
+        g = _from_lists(g.dim, g.nodes, faces, cells)
     return g
 
 
@@ -223,10 +252,25 @@ def _tensor_tie(case):
     return case["kind"] == "tensor" and case["dim"] in (2, 3) and not case.get("flip_faces") and not case.get("flip_signs")
 
 
+def _geometry(case):
+    """real grid of the case with geometry computed through the entry point the case names:
+    plain, 'copy' (Grid.copy() of the constructed grid, then compute_geometry) or 'twice' (compute_geometry repeated)"""
+    g = _build(case)
+    rep = case.get("repeat")
+    if rep == "copy":
+        g = g.copy()
+    legacy = _compute(g)
+    if rep == "twice":
+        legacy = _compute(g)
+    return g, legacy
+
+
 def _model_dim(case):
     """which model op covers the case: 1, 2, 3, or "2e" = planar 2-D model followed by the rigid motion of the case
     (embedded 1-D grids go to the 1-D model directly: it works on 3-D nodes); embedded cases always have a rational
     orthogonal matrix in case["affine"]"""
+    if case["kind"] == "point":
+        return None
     if case.get("embedded"):
         return 1 if case["dim"] == 1 else "2e"
     return case["dim"]
@@ -235,8 +279,7 @@ def _model_dim(case):
 # ----------------------------------------------------------------------------- impl / model
 def impl_run(case):
     try:
-        g = _build(case)
-        legacy = _compute(g)
+        g, legacy = _geometry(case)
     except Exception as e:
         return err_kind(e)
     md = _model_dim(case)
@@ -369,6 +412,7 @@ def model_decode(outs, case):
         if F(o["min_tet"]) < Fraction(-1, 10 ** 12):
             return {"err": "ValueError"}
         res.update({"face_normals": o["face_normals"], "cell_volumes": o["cell_volumes"]})
+        res["_hyp_ok"] = o.get("hyp_ok", [])
         if case.get("planar", True):
             res.update({"face_area2": o["face_area2"], "face_centers": o["face_centers"], "cell_centers": o["cell_centers"]})
     return res
@@ -393,7 +437,26 @@ def compare(impl, model, case):
                 f"the construction implies {'oriented' if case['expect_oriented'] else 'legacy'}")
     a = {k: v for k, v in impl.items() if k != "tensor_cells"}
     b = {k: v for k, v in m.items() if k != "tensor_cells"}
+    if "_hyp_ok" in model:
+        # the decidable hypotheses of the 3-D theorems (cellHypB), evaluated by the Lean driver on the exact node coordinates;
+        # required wherever planarity survives binary64 rounding of the nodes: simplices always, other cells without maps
+        exact = case["kind"] in ("tet", "stet") or (case.get("planar", True) and not case.get("affine") and not case.get("perturb"))
+        HYP["cells"] += len(model["_hyp_ok"])
+        HYP["cells_hyp_true"] += sum(1 for x in model["_hyp_ok"] if x)
+        if exact:
+            HYP["cells_required"] += len(model["_hyp_ok"])
+            if not all(model["_hyp_ok"]):
+                return f"3-D cell {model['_hyp_ok'].index(False)} does not satisfy the decidable hypotheses (closed surface, planar star-shaped faces, star-shaped about the centre)"
+    if "cell_volumes" in b and "err" not in b and case["dim"] >= 2:
+        # model side of 'volumes sum to the domain measure' (exact rationals on the binary64 nodes)
+        tot = sum(F(x) if isinstance(x, str) else Fraction(x) for x in b["cell_volumes"])
+        meas = F(case["measure"])
+        if abs(float(tot - meas)) > 1e-9 * float(meas):
+            return f"model volumes sum to {float(tot)!r}, domain measure is {float(meas)!r}"
     return _rel_compare(a, b, case)
+
+
+HYP = {"cells": 0, "cells_hyp_true": 0, "cells_required": 0}
 
 
 _POS = ("face_centers", "cell_centers")
@@ -459,10 +522,12 @@ def _inside(poly_edges, pt):
 
 
 def oracle(case):
-    tag = f"{case['kind']}-dim{case['dim']}" + ("-embedded" if case.get("embedded") else "")
+    tag = (f"{case['kind']}-dim{case['dim']}" + ("-embedded" if case.get("embedded") else "") + ("-dict" if case.get("origin") else "")
+           + ("-scalar" if case.get("scalar_nx") else ""))
+    if case["kind"] == "point":
+        return _oracle_point(case)
     try:
-        g = _build(case)
-        _compute(g)
+        g, _ = _geometry(case)
     except Exception as e:
         return {"what": f"compute_geometry of a valid grid raised {type(e).__name__}: {e}", "key": f"raises-{type(e).__name__}:{tag}"}
     dim = g.dim
@@ -529,6 +594,17 @@ def oracle(case):
             if np.max(np.abs(lhs - rhs)) > TOL_ORACLE * Rc * scale * max(L, hc) ** 2:
                 return {"what": f"cell {c}: sum sign (x_f.n) x_f = {lhs.tolist()} but (dim+1) V c = {rhs.tolist()}", "key": f"centroid-identity:{tag}"}
     return None
+
+
+def _oracle_point(case):
+    """0-d grids: unit cell volume, no faces (nothing else for the property to say)"""
+    try:
+        g, _ = _geometry(case)
+    except Exception as e:
+        return {"what": f"compute_geometry of a point grid raised {type(e).__name__}: {e}", "key": f"raises-{type(e).__name__}:point"}
+    ok = (g.cell_volumes.shape == (1,) and g.cell_volumes[0] == 1.0 and g.face_areas.size == 0 and g.face_normals.shape == (3, 0)
+          and np.array_equal(g.cell_centers.ravel(), np.array([float(F(x)) for x in case["p"]])))
+    return None if ok else {"what": "point grid geometry is not (volume 1, no faces, centre = the point)", "key": "point-grid"}
 
 
 # ----------------------------------------------------------------------------- generators
@@ -989,7 +1065,30 @@ def _gen_islands(rng, tier):
 
 
 def gen_case(rng, tier):
+    if rng.random() < 0.04:  # 0-d stratum: PointGrid (_compute_geometry_0d)
+        return {"kind": "point", "dim": 0, "p": [frac(fr(rng, -2, 2)) for _ in range(3)], "measure": "1", "planar": True}
     case = _gen_case(rng, tier)
+    # entry-point strata
+    if case["kind"] == "cart":
+        if rng.random() < 0.3:
+            case["origin"] = [frac(fr(rng, -2, 2)) for _ in case["nx"]]  # physdims given as a dictionary
+        if case["dim"] == 1 and rng.random() < 0.3:
+            case["scalar_nx"] = True  # CartGrid(n, ...)
+        if case["dim"] == 1 and case.get("origin"):
+            # this entry point is a known finding: keep the case free of other modifications
+            case = {k: case[k] for k in ("kind", "dim", "nx", "phys", "origin", "planar", "scalar_nx") if k in case}
+            case["measure"] = case["phys"][0]
+            return case
+    if rng.random() < 0.15:
+        case["repeat"] = rng.choice(["twice", "copy"])
+    if rng.random() < 0.15 and not (case["kind"] == "cart" and case["dim"] == 1 and case.get("origin")):
+        try:
+            nc = _build(case).num_cells
+            order = list(range(nc))
+            rng.shuffle(order)
+            case["perm_cells"] = [[i, rng.randrange(4)] for i in order]
+        except Exception:
+            pass
     if rng.random() < 0.55:
         # geometric scale: all coordinates times a power of two (exact), measure scales with 2^(k dim)
         k = rng.choice([-20, -20, -16, -12, -10, -7, -3, 3, 7, 10, 14, 20]) if rng.random() < 0.8 else rng.randint(-20, 20)
@@ -1037,12 +1136,19 @@ def _gen_case(rng, tier):
 
 
 def nontrivial(case):
+    if case["kind"] == "point":
+        return False
     if case["kind"] == "cart" and not any(case.get(k) for k in ("perturb", "affine", "flip_faces", "flip_signs")):
         return case["phys"] != [str(n) for n in case["nx"]]
     return True
 
 
 def shrink_candidates(case):
+    for k in ("repeat", "perm_cells", "scalar_nx"):
+        if case.get(k):
+            c = dict(case)
+            del c[k]
+            yield c
     if case.get("scale"):
         c = dict(case)
         c["measure"] = frac(F(case["measure"]) / Fraction(2) ** (case["scale"] * case["dim"]))
@@ -1084,6 +1190,12 @@ def stats(cases, impl_outs):
             "nonconvex_cells": sum(1 for c in cases if not c.get("convex", True)), "islands": sum(1 for c in cases if c.get("islands")),
             "scaled": {str(k): sum(1 for c in cases if c.get("scale", 0) == k) for k in sorted(set(c.get("scale", 0) for c in cases))},
             "graded_tensor": sum(1 for c in cases if c.get("graded")),
+            "entry_dict_physdims": sum(1 for c in cases if c.get("origin")), "entry_scalar_nx": sum(1 for c in cases if c.get("scalar_nx")),
+            "entry_copy_then_compute": sum(1 for c in cases if c.get("repeat") == "copy"),
+            "compute_geometry_twice": sum(1 for c in cases if c.get("repeat") == "twice"),
+            "permuted_cell_and_face_order": sum(1 for c in cases if c.get("perm_cells")), "point_grids_0d": sum(1 for c in cases if c["kind"] == "point"),
+            "single_cell_grids": sum(1 for o in impl_outs if isinstance(o, dict) and len(o.get("cell_volumes", o.get("cell_len2", []))) == 1),
+            "cells_3d_decidable_hypotheses": dict(HYP),
             "legacy_path_2d": sum(1 for o in impl_outs if isinstance(o, dict) and o.get("oriented") is False),
             "oriented_path_2d": sum(1 for o in impl_outs if isinstance(o, dict) and o.get("oriented") is True),
             "impl_errors": sum(1 for o in impl_outs if isinstance(o, dict) and "err" in o)}
